@@ -116,7 +116,12 @@ def pool():
          "@dataclass\nclass Outer:\n    b: RB\n", g)
     g["RA"].__annotations__["b"] = g["RB"]
     N = NewType("N", int)
+    # two DISTINCT classes that print alike (same name, module and field ids) but differ in a default
+    import dataclasses
+    RowV1 = dataclasses.make_dataclass("Row", [("a", int), ("b", int, dataclasses.field(default=1))])
+    RowV2 = dataclasses.make_dataclass("Row", [("a", int), ("b", int, dataclasses.field(default=2))])
     types = {
+        "RowV1": RowV1, "RowV2": RowV2,
         "Literal[0,1]": Literal[0, 1], "Literal[False,True]": Literal[False, True], "Literal[1,0]": Literal[1, 0],
         "Literal[0]": Literal[0], "Literal[False]": Literal[False], "Literal['a',1]": Literal["a", 1], "Literal['a',True]": Literal["a", True],
         "List[int]": List[int], "list[int]": list[int], "Sequence[int]": Sequence[int], "List[bool]": List[bool],
@@ -126,10 +131,10 @@ def pool():
         "List[Literal[0,1]]": List[Literal[0, 1]], "List[Literal[False,True]]": List[Literal[False, True]],
         "Weird": Weird, "List[Weird]": List[Weird], "RA": g["RA"], "RB": g["RB"], "Outer": g["Outer"],
     }
-    load_samples = [lambda: 0, lambda: 1, lambda: False, lambda: True, lambda: "a", lambda: [0, 1], lambda: [False, True], lambda: None,
+    load_samples = [lambda: {"a": 0}, lambda: 0, lambda: 1, lambda: False, lambda: True, lambda: "a", lambda: [0, 1], lambda: [False, True], lambda: None,
                     lambda: {"a": 1}, lambda: {"a": True, "b": "y"}, lambda: {}, lambda: {"f": 1}, lambda: "R", lambda: [],
                     lambda: {"b": {"a": None}}, lambda: {"b": {"a": {"b": {}}}}, lambda: 1.0]
-    dump_samples = [lambda: 0, lambda: True, lambda: [1, True], lambda: M1(1), lambda: M2(2, "q"), lambda: D0(), lambda: DF(), lambda: Color.R,
+    dump_samples = [lambda: RowV1(0), lambda: RowV2(0), lambda: 0, lambda: True, lambda: [1, True], lambda: M1(1), lambda: M2(2, "q"), lambda: D0(), lambda: DF(), lambda: Color.R,
                     lambda: "a", lambda: None, lambda: Flag01.O, lambda: g["RB"](), lambda: g["Outer"](g["RB"]())]
     return types, load_samples, dump_samples
 
